@@ -1347,6 +1347,25 @@ pub fn main(args: &[String]) {
             print_findings(idx, &check_tree(&spec, avail, &mut st));
             println!("{:?}", st);
         }
+        "insetwitness" => {
+            // block container 100 wide, two 20-high children, the first `position: relative; top: 30`: a relative inset shifts the box
+            // after layout (by design in CSS), so it is drawn over its next sibling; the C10 clauses skip boxes with vertical insets
+            let mut t: TaffyTree<Ctx> = TaffyTree::new();
+            t.disable_rounding();
+            let a = t
+                .new_leaf(Style {
+                    display: Display::Block,
+                    size: Size { width: Dimension::auto(), height: Dimension::length(20.0) },
+                    position: Position::Relative,
+                    inset: Rect { left: LengthPercentageAuto::auto(), right: LengthPercentageAuto::auto(), top: LengthPercentageAuto::length(30.0), bottom: LengthPercentageAuto::auto() },
+                    ..Default::default()
+                })
+                .unwrap();
+            let b = t.new_leaf(Style { display: Display::Block, size: Size { width: Dimension::auto(), height: Dimension::length(20.0) }, ..Default::default() }).unwrap();
+            let root = t.new_with_children(Style { display: Display::Block, size: Size { width: Dimension::length(100.0), height: Dimension::auto() }, ..Default::default() }, &[a, b]).unwrap();
+            treegen::compute(&mut t, root, Size::MAX_CONTENT);
+            println!("INSETWITNESS a_y={} a_h={} b_y={}", t.unrounded_layout(a).location.y, t.unrounded_layout(a).size.height, t.unrounded_layout(b).location.y);
+        }
         "witness" => {
             let (spec, avail) = witness_spec();
             // through the public TaffyTree API
